@@ -18,6 +18,9 @@ Section Generic.
 
   (* ---- the create loop ---------------------------------------------------------------------- *)
 
+  Ltac cp_step ex r n' c d Er :=
+    destruct (create_phase pf ex r n') as [c d] eqn:Er; cbn [fst snd].
+
   Lemma cp_cases ex pend n p :
     In p pend ->
     covered_by pf ex p = true \/ In p (snd (create_phase pf ex pend n)) \/ In (p, create pf p) (fst (create_phase pf ex pend n)).
@@ -26,10 +29,12 @@ Section Generic.
     destruct (covered_by pf ex q) eqn:Ec.
     - destruct Hin as [->|Hin]; auto.
     - destruct (can_create pf n); cbn [negb].
-      + destruct (create_phase pf ex r (S n)) as [c d] eqn:Er. cbn [fst snd].
-        destruct Hin as [->|Hin]; [right; right; now left|].
-        specialize (IH (S n) Hin). rewrite Er in IH. cbn [fst snd] in IH. intuition.
-      + destruct (create_phase pf ex r n) as [c d] eqn:Er. cbn [fst snd].
+      + destruct (create pf q) as [e|] eqn:Eq.
+        * cp_step ex r (S n) c d Er. destruct Hin as [->|Hin]; [right; right; rewrite Eq; now left|].
+          specialize (IH (S n) Hin). rewrite Er in IH. cbn [fst snd] in IH. intuition.
+        * cp_step ex r n c d Er. destruct Hin as [->|Hin]; [right; right; rewrite Eq; now left|].
+          specialize (IH n Hin). rewrite Er in IH. cbn [fst snd] in IH. intuition.
+      + cp_step ex r n c d Er.
         destruct Hin as [->|Hin]; [right; left; now left|].
         specialize (IH n Hin). rewrite Er in IH. cbn [fst snd] in IH. intuition.
   Qed.
@@ -41,10 +46,14 @@ Section Generic.
     destruct (covered_by pf ex q) eqn:Ec.
     - intros H. apply IH in H. intuition.
     - destruct (can_create pf n); cbn [negb].
-      + destruct (create_phase pf ex r (S n)) as [c d] eqn:Er. cbn [fst]. intros [H|H].
-        * inversion H; subst. intuition.
-        * specialize (IH (S n)). rewrite Er in IH. apply IH in H. intuition.
-      + destruct (create_phase pf ex r n) as [c d] eqn:Er. cbn [fst]. intros H.
+      + destruct (create pf q) as [e|] eqn:Eq.
+        * cp_step ex r (S n) c d Er. intros [H|H].
+          -- inversion H; subst. intuition.
+          -- specialize (IH (S n)). rewrite Er in IH. apply IH in H. intuition.
+        * cp_step ex r n c d Er. intros [H|H].
+          -- inversion H; subst. intuition.
+          -- specialize (IH n). rewrite Er in IH. apply IH in H. intuition.
+      + cp_step ex r n c d Er. intros H.
         specialize (IH n). rewrite Er in IH. apply IH in H. intuition.
   Qed.
 
@@ -55,9 +64,12 @@ Section Generic.
     destruct (covered_by pf ex q) eqn:Ec.
     - intros H. apply IH in H. intuition.
     - destruct (can_create pf n) eqn:Eb; cbn [negb].
-      + destruct (create_phase pf ex r (S n)) as [c d] eqn:Er. cbn [snd]. intros H.
-        specialize (IH (S n)). rewrite Er in IH. apply IH in H. intuition.
-      + destruct (create_phase pf ex r n) as [c d] eqn:Er. cbn [snd]. intros [H|H].
+      + destruct (create pf q) as [e|] eqn:Eq.
+        * cp_step ex r (S n) c d Er. intros H.
+          specialize (IH (S n)). rewrite Er in IH. apply IH in H. intuition.
+        * cp_step ex r n c d Er. intros H.
+          specialize (IH n). rewrite Er in IH. apply IH in H. intuition.
+      + cp_step ex r n c d Er. intros [H|H].
         * subst. intuition.
         * specialize (IH n). rewrite Er in IH. apply IH in H. intuition.
   Qed.
@@ -69,47 +81,76 @@ Section Generic.
     rewrite (H q) by now left. apply IH. intros p Hp. apply H. now right.
   Qed.
 
-  (** with budget m the loop issues at most m - n further Create calls *)
+  (** when every pending comment is covered or cannot be placed, the loop stores nothing *)
+  Lemma cp_nothing_stored ex pend n :
+    (forall p, In p pend -> covered_by pf ex p = true \/ create pf p = None) ->
+    stored (fst (create_phase pf ex pend n)) = [].
+  Proof.
+    revert n. induction pend as [|q r IH]; intros n H; cbn [create_phase]; auto.
+    assert (Hr : forall p, In p r -> covered_by pf ex p = true \/ create pf p = None) by (intros p Hp; apply H; now right).
+    destruct (covered_by pf ex q) eqn:Ec; [now apply IH|].
+    destruct (H q (or_introl eq_refl)) as [K|K]; [congruence|].
+    destruct (can_create pf n); cbn [negb].
+    - rewrite K. specialize (IH n Hr). cp_step ex r n c d Er. cbn [fst] in IH. cbn [stored flat_map snd app]. exact IH.
+    - specialize (IH n Hr). cp_step ex r n c d Er. exact IH.
+  Qed.
+
+  (** with budget m the loop PLACES at most m - n further comments (Create calls that are skipped are free) *)
   Lemma cp_budget m ex pend n :
-    (forall k, can_create pf k = (k <? m)) -> List.length (fst (create_phase pf ex pend n)) <= m - n.
+    (forall k, can_create pf k = (k <? m)) -> List.length (stored (fst (create_phase pf ex pend n))) <= m - n.
   Proof.
     intros Hb. revert n. induction pend as [|q r IH]; intros n; cbn [create_phase]; [cbn; lia|].
     destruct (covered_by pf ex q); auto. rewrite Hb. destruct (n <? m) eqn:El; cbn [negb].
-    - apply Nat.ltb_lt in El. specialize (IH (S n)). destruct (create_phase pf ex r (S n)) as [c d]. cbn [fst List.length] in *. lia.
-    - specialize (IH n). destruct (create_phase pf ex r n) as [c d]. cbn [fst] in *. exact IH.
+    - apply Nat.ltb_lt in El. destruct (create pf q) as [e|] eqn:Eq.
+      + specialize (IH (S n)). cp_step ex r (S n) c d Er. cbn [fst] in IH. cbn [stored flat_map snd app List.length] in *.
+        fold (stored c). lia.
+      + specialize (IH n). cp_step ex r n c d Er. cbn [fst] in IH. cbn [stored flat_map snd app] in *. fold (stored c). lia.
+    - specialize (IH n). cp_step ex r n c d Er. exact IH.
   Qed.
 
+  (** the placeable comments refused by the budget: exactly those beyond the first m - n uncovered placeable ones *)
   Lemma cp_deferred_length m ex pend n :
     (forall k, can_create pf k = (k <? m)) ->
-    List.length (snd (create_phase pf ex pend n)) = List.length (uncovered pf ex pend) - (m - n).
+    List.length (filter (placeable pf) (snd (create_phase pf ex pend n))) = List.length (todo pf ex pend) - (m - n).
   Proof.
-    intros Hb. revert n. induction pend as [|q r IH]; intros n; cbn [create_phase uncovered filter]; [reflexivity|].
-    fold (uncovered pf ex r). destruct (covered_by pf ex q); cbn [negb]; auto.
+    intros Hb. revert n. induction pend as [|q r IH]; intros n; cbn [create_phase todo filter]; [reflexivity|].
+    fold (todo pf ex r). destruct (covered_by pf ex q); cbn [negb andb]; auto.
     rewrite Hb. destruct (n <? m) eqn:El; cbn [negb].
-    - apply Nat.ltb_lt in El. specialize (IH (S n)). destruct (create_phase pf ex r (S n)) as [c d]. cbn [snd List.length] in *. lia.
-    - apply Nat.ltb_ge in El. specialize (IH n). destruct (create_phase pf ex r n) as [c d]. cbn [snd List.length] in *. lia.
+    - apply Nat.ltb_lt in El. unfold placeable at 2. destruct (create pf q) as [e|] eqn:Eq.
+      + specialize (IH (S n)). cp_step ex r (S n) c d Er. cbn [snd] in IH. cbn [List.length]. lia.
+      + specialize (IH n). cp_step ex r n c d Er. cbn [snd] in IH. lia.
+    - apply Nat.ltb_ge in El. specialize (IH n). cp_step ex r n c d Er. cbn [snd] in IH. cbn [filter].
+      destruct (placeable pf q); cbn [List.length]; lia.
   Qed.
 
-  (** counting: comments still uncovered w.r.t. [cov'] are among the deferred ones *)
+  (** counting: placeable comments still uncovered w.r.t. [cov'] are among the deferred placeable ones *)
   Lemma cp_uncovered_le (cov' : P -> bool) ex pend n :
     (forall p, In p pend -> covered_by pf ex p = true -> cov' p = true) ->
-    (forall p oe, In (p, oe) (fst (create_phase pf ex pend n)) -> cov' p = true) ->
-    List.length (filter (fun p => negb (cov' p)) pend) <= List.length (snd (create_phase pf ex pend n)).
+    (forall p e, In (p, Some e) (fst (create_phase pf ex pend n)) -> cov' p = true) ->
+    List.length (filter (fun p => negb (cov' p) && placeable pf p) pend) <=
+    List.length (filter (placeable pf) (snd (create_phase pf ex pend n))).
   Proof.
     revert n. induction pend as [|q r IH]; intros n H1 H2; cbn [create_phase filter]; [cbn; lia|].
-    cbn [create_phase] in H2. destruct (covered_by pf ex q) eqn:Ec.
-    - rewrite (H1 q) by (auto; now left). cbn [negb]. apply IH; auto. intros p Hp. apply H1. now right.
+    cbn [create_phase] in H2.
+    assert (H1r : forall p, In p r -> covered_by pf ex p = true -> cov' p = true) by (intros p Hp; apply H1; now right).
+    destruct (covered_by pf ex q) eqn:Ec.
+    - rewrite (H1 q) by (auto; now left). cbn [negb andb]. apply IH; auto.
     - destruct (can_create pf n); cbn [negb] in *.
-      + destruct (create_phase pf ex r (S n)) as [c d] eqn:Er. cbn [fst snd] in *.
-        rewrite (H2 q (create pf q)) by now left. cbn [negb].
-        specialize (IH (S n)). rewrite Er in IH. cbn [fst snd] in IH. apply IH.
-        * intros p Hp. apply H1. now right.
-        * intros p oe Hin. apply (H2 p oe). now right.
+      + unfold placeable at 1. destruct (create pf q) as [e|] eqn:Eq.
+        * destruct (create_phase pf ex r (S n)) as [c d] eqn:Er. cbn [fst snd] in *.
+          rewrite (H2 q e) by now left. cbn [negb andb].
+          specialize (IH (S n)). rewrite Er in IH. cbn [fst snd] in IH. apply IH; auto.
+          intros p e' Hin. apply (H2 p e'). now right.
+        * destruct (create_phase pf ex r n) as [c d] eqn:Er. cbn [fst snd] in *.
+          rewrite andb_false_r.
+          specialize (IH n). rewrite Er in IH. cbn [fst snd] in IH. apply IH; auto.
+          intros p e' Hin. apply (H2 p e'). now right.
       + destruct (create_phase pf ex r n) as [c d] eqn:Er. cbn [fst snd] in *.
         specialize (IH n). rewrite Er in IH. cbn [fst snd] in IH.
-        assert (List.length (filter (fun p => negb (cov' p)) r) <= List.length d) as Hle.
-        { apply IH; auto. intros p Hp. apply H1. now right. }
-        destruct (negb (cov' q)); cbn [List.length]; lia.
+        assert (List.length (filter (fun p => negb (cov' p) && placeable pf p) r) <= List.length (filter (placeable pf) d)) as Hle
+          by (apply IH; auto).
+        cbn [filter]. destruct (placeable pf q); [|rewrite andb_false_r; exact Hle].
+        destruct (negb (cov' q)); cbn [andb List.length]; lia.
   Qed.
 
   (* ---- one run -------------------------------------------------------------------------------- *)
@@ -149,9 +190,9 @@ Section Generic.
       apply in_or_app. right. apply stored_in. eauto.
   Qed.
 
-  (** the number of Create calls of a run never exceeds the budget *)
+  (** the number of comments PLACED by a run never exceeds the budget (skipped Create calls are not counted) *)
   Lemma created_le_budget m store pend :
-    (forall k, can_create pf k = (k <? m)) -> List.length (l_created (snd (step pf store pend))) <= m.
+    (forall k, can_create pf k = (k <? m)) -> List.length (stored (l_created (snd (step pf store pend)))) <= m.
   Proof.
     intros Hb. unfold step. pose proof (cp_budget m store pend 0 Hb) as H.
     destruct (create_phase pf store pend 0) as [c d]. cbn [fst snd l_created] in *. lia.
@@ -205,20 +246,21 @@ Section Generic.
     apply IH. intros x Hx. apply H. now right.
   Qed.
 
-  (** idempotent: when a run deferred nothing and skipped nothing, repeating it with the same pending list
-      creates nothing, deletes nothing and leaves the store as it is *)
+  (** idempotent: when a run deferred no comment that could have been placed, repeating it with the same pending
+      list stores nothing, deletes nothing and leaves the store as it is.  (Comments the platform cannot place
+      are offered to Create again - and skipped again - in every run; they never enter the store.) *)
   Lemma idempotent store pend :
     L1 pend ->
-    l_deferred (snd (step pf store pend)) = [] ->
-    (forall p, ~ In (p, None) (l_created (snd (step pf store pend)))) ->
+    (forall p, In p (l_deferred (snd (step pf store pend))) -> create pf p = None) ->
     let store' := fst (step pf store pend) in
-    step pf store' pend = (store', {| l_created := []; l_deferred := []; l_deleted := [] |}).
+    fst (step pf store' pend) = store' /\
+    stored (l_created (snd (step pf store' pend))) = [] /\
+    l_deleted (snd (step pf store' pend)) = [] /\
+    (forall p, In p (l_deferred (snd (step pf store' pend))) -> create pf p = None).
   Proof.
-    intros HL Hd Hs store'.
-    assert (Hcov : forall p, In p pend -> covered_by pf store' p = true).
-    { intros p Hp. destruct (covered_or_deferred store pend HL p Hp) as [H|[H|[H _]]]; auto.
-      - rewrite Hd in H. destruct H.
-      - exfalso. eapply Hs; eauto. }
+    intros HL Hd store'.
+    assert (Hcov : forall p, In p pend -> covered_by pf store' p = true \/ create pf p = None).
+    { intros p Hp. destruct (covered_or_deferred store pend HL p Hp) as [H|[H|[_ H]]]; auto. }
     assert (Hns : forall e, In e store' -> stale pf pend e = false).
     { intros e He. unfold store', step in He. destruct (create_phase pf store pend 0) as [c d] eqn:Ecp. cbn [fst] in He.
       apply in_app_or in He. destruct He as [He|He].
@@ -226,54 +268,73 @@ Section Generic.
       - apply stored_in in He. destruct He as (p & Hin).
         pose proof (cp_created store pend 0 p (Some e)) as K. rewrite Ecp in K. cbn [fst] in K.
         destruct (K Hin) as (Hp & _ & Hc). apply (stale_false_of_equal pend e p Hp). apply (HL p e Hp). auto. }
-    unfold step at 1. rewrite (cp_all_covered store' pend 0 Hcov). cbn [stored flat_map]. rewrite app_nil_r.
-    f_equal.
+    pose proof (cp_nothing_stored store' pend 0 Hcov) as Hst.
+    assert (Hdef : forall p, In p (snd (create_phase pf store' pend 0)) -> create pf p = None).
+    { intros p Hp. apply cp_deferred in Hp. destruct Hp as [Hp Hc]. destruct (Hcov p Hp); congruence. }
+    unfold step at 1 2 3 4. destruct (create_phase pf store' pend 0) as [c d]. cbn [fst snd l_created l_deleted l_deferred] in *.
+    rewrite Hst, app_nil_r. repeat split; auto.
     - apply filter_all. intros e He. now rewrite (Hns e He).
-    - f_equal. now apply filter_none.
+    - now apply filter_none.
   Qed.
 
   (* ---- repeated runs ---------------------------------------------------------------------------- *)
 
-  (** one run with budget m covers at least min(m, uncovered) more pending comments *)
-  Lemma uncovered_decreases m store pend :
-    L1 pend -> (forall k, can_create pf k = (k <? m)) -> (forall p, In p pend -> create pf p <> None) ->
-    List.length (uncovered pf (fst (step pf store pend)) pend) <= List.length (uncovered pf store pend) - m.
+  (** one run with budget m covers at least min(m, remaining) more of the pending comments that can be placed *)
+  Lemma todo_decreases m store pend :
+    L1 pend -> (forall k, can_create pf k = (k <? m)) ->
+    List.length (todo pf (fst (step pf store pend)) pend) <= List.length (todo pf store pend) - m.
   Proof.
-    intros HL Hb Hskip.
+    intros HL Hb.
     pose proof (cp_deferred_length m store pend 0 Hb) as Hlen. rewrite Nat.sub_0_r in Hlen. rewrite <- Hlen.
-    unfold uncovered. apply cp_uncovered_le.
-    - intros p Hp Hc. destruct (covered_or_deferred store pend HL p Hp) as [H|[H|[H _]]]; auto.
-      + unfold step in H. destruct (create_phase pf store pend 0) as [c d] eqn:Ecp. cbn [snd l_deferred] in H.
-        pose proof (cp_deferred store pend 0 p) as K. rewrite Ecp in K. cbn [snd] in K. destruct (K H). congruence.
-      + unfold step in H. destruct (create_phase pf store pend 0) as [c d] eqn:Ecp. cbn [snd l_created] in H.
-        pose proof (cp_created store pend 0 p None) as K. rewrite Ecp in K. cbn [fst] in K. destruct (K H) as (_ & K2 & _). congruence.
-    - intros p oe Hin. pose proof (cp_created store pend 0 p oe Hin) as (Hp & _ & Hoe).
-      destruct (create pf p) as [e|] eqn:Ec; [|exfalso; now apply (Hskip p Hp)].
+    unfold todo. apply cp_uncovered_le.
+    - intros p Hp Hc. apply covered_by_iff in Hc. destruct Hc as (e & He & Heq). apply covered_by_iff. exists e. split; auto.
+      unfold step. destruct (create_phase pf store pend 0) as [c d]. cbn [fst].
+      apply in_or_app. left. apply filter_In. split; auto. now rewrite (stale_false_of_equal pend e p).
+    - intros p e Hin. pose proof (cp_created store pend 0 p (Some e) Hin) as (Hp & _ & Hoe).
       apply covered_by_iff. exists e. split; [|now apply (HL p e)].
       unfold step. destruct (create_phase pf store pend 0) as [c d] eqn:Ecp. cbn [fst] in *.
-      apply in_or_app. right. apply stored_in. exists p. now rewrite <- Hoe.
+      apply in_or_app. right. apply stored_in. exists p. exact Hin.
   Qed.
 
-  Lemma uncovered_after_runs m store pend k :
-    L1 pend -> (forall k, can_create pf k = (k <? m)) -> (forall p, In p pend -> create pf p <> None) ->
-    List.length (uncovered pf (run_n pf k store pend) pend) <= List.length (uncovered pf store pend) - k * m.
+  Lemma todo_after_runs m store pend k :
+    L1 pend -> (forall k, can_create pf k = (k <? m)) ->
+    List.length (todo pf (run_n pf k store pend) pend) <= List.length (todo pf store pend) - k * m.
   Proof.
-    intros HL Hb Hskip. revert store. induction k as [|k IH]; intros store; cbn [run_n]; [lia|].
+    intros HL Hb. revert store. induction k as [|k IH]; intros store; cbn [run_n]; [lia|].
     specialize (IH (fst (step pf store pend))).
-    pose proof (uncovered_decreases m store pend HL Hb Hskip). lia.
+    pose proof (todo_decreases m store pend HL Hb). lia.
   Qed.
 
-  (** converges: with budget m >= 1, n comments uncovered at the start and unchanged results, the k-th run
-      defers nothing as soon as k*m >= n, and every later run creates and deletes nothing *)
-  Lemma converges m store pend k :
-    L1 pend -> (forall k, can_create pf k = (k <? m)) -> (forall p, In p pend -> create pf p <> None) ->
-    List.length (uncovered pf store pend) <= S k * m ->
-    l_deferred (snd (step pf (run_n pf k store pend) pend)) = [].
+  Lemma filter_nil_forall {A} (f : A -> bool) l : filter f l = [] -> forall x, In x l -> f x = false.
   Proof.
-    intros HL Hb Hskip Hn.
-    pose proof (uncovered_after_runs m store pend k HL Hb Hskip) as Hu.
+    induction l as [|a l IH]; intros H x Hx; [destruct Hx|]. cbn [filter] in H.
+    destruct (f a) eqn:Ea; [discriminate|]. destruct Hx as [<-|Hx]; auto.
+  Qed.
+
+  (** converges: with budget m, n placeable comments uncovered at the start and unchanged results, run k+1
+      defers no comment that can be placed as soon as (k+1)*m >= n - whatever else is pending (comments on
+      paths outside the pull request are skipped by Create and cost nothing) *)
+  Lemma converges m store pend k :
+    L1 pend -> (forall k, can_create pf k = (k <? m)) ->
+    List.length (todo pf store pend) <= S k * m ->
+    forall p, In p (l_deferred (snd (step pf (run_n pf k store pend) pend))) -> create pf p = None.
+  Proof.
+    intros HL Hb Hn.
+    pose proof (todo_after_runs m store pend k HL Hb) as Hu.
     pose proof (cp_deferred_length m (run_n pf k store pend) pend 0 Hb) as Hlen.
     unfold step. destruct (create_phase pf (run_n pf k store pend) pend 0) as [c d]. cbn [snd l_deferred] in *.
-    apply length_zero_iff_nil. cbn in Hn. lia.
+    assert (Hz : filter (placeable pf) d = []) by (apply length_zero_iff_nil; cbn in Hn; lia).
+    intros p Hp. pose proof (filter_nil_forall _ _ Hz p Hp) as K. unfold placeable in K.
+    destruct (create pf p); [discriminate|reflexivity].
+  Qed.
+
+  (** ... and then everything that can be placed IS covered: after run k+1 nothing is left to do *)
+  Lemma converged_todo_nil m store pend k :
+    L1 pend -> (forall k, can_create pf k = (k <? m)) ->
+    List.length (todo pf store pend) <= S k * m ->
+    todo pf (run_n pf (S k) store pend) pend = [].
+  Proof.
+    intros HL Hb Hn. apply length_zero_iff_nil.
+    pose proof (todo_after_runs m store pend (S k) HL Hb). lia.
   Qed.
 End Generic.
